@@ -399,7 +399,71 @@ def build_extra():
     c = C09.build()
     c.pid = "C17l"
     c.only_verify = ["Light.remove_from_stack_by_key", "Light._remove_fade_out", "Light._remove_from_stack_by_key"]
-    return [c, show_player_set()]
+    return [c, show_player_set(), replace_set()]
+
+
+SHOWC = "mpf/core/show_controller.py"
+
+
+def replace_set():
+    """ShowController.replace_or_advance_show: a synchronised show that replaces a running one takes it over AT the sync
+    point - the old show is stopped by the new show's start callback, never at once, however far the old one got"""
+    C = ContractSet("C17r", "a synced replacement stops its predecessor at the sync point")
+    C.strings = False
+    C.cls("MpfController", fields={})
+    CFG = ObjS("ShowConfigI", sync_ms=Int, events_when_played=Opt(Opaque("Events")),
+               events_when_stopped=Opt(Opaque("Events")), manual_advance=Bool, name=Str)
+    C.cls("ShowConfigI", fields=CFG.fields)
+
+    def old_config(I, name):
+        """the old instance runs the SAME config object as the new request, or another one"""
+        if I.ctx.fork(2) == 0:
+            return I.frames[0].env["config"]
+        return I.fresh(CFG, name)
+    C.cls("RunningShowI", fields=dict(stopped=Bool, show_config=Init(old_config), current_step_index=Opt(Int)))
+    C.ext("RunningShowI.stop", model=lambda I, env, a, k: (emit(I, "old.stop", show=env["self"].ref), NONE)[1],
+          trusted_reason="RunningShow.stop (C17 main set)")
+    C.ext("RunningShowI.advance", model=lambda I, env, a, k: (emit(I, "old.advance"), NONE)[1],
+          trusted_reason="RunningShow.advance (C17 main set)")
+    C.cls("ShowI", fields={})
+
+    def play(I, env, a, k):
+        emit(I, "play", kwargs=dict(k))
+        return I.fresh(ObjS("RunningShowI"), I.fresh_name("new_show"))
+    C.ext("ShowI.play_with_config", model=play, trusted_reason="Show.play_with_config: creates the RunningShow (C17 main set)")
+    C.cls("ShowsI", fields={})
+    C.ext("ShowsI.__getitem__", model=lambda I, env, a, k: I.fresh(ObjS("ShowI"), I.fresh_name("show")),
+          trusted_reason="machine.shows lookup (a missing show raises KeyError: not modelled)")
+    C.cls("ShowController", file=SHOWC, bases=["MpfController"], fields=dict(
+        machine=ObjS("MachineController", shows=ObjS("ShowsI"))))
+
+    def takeover_ok(I, old_instance, config):
+        plays = events_named(I, "play")
+        stops = events_named(I, "old.stop")
+        if len(plays) != 1:
+            return VBool(False)
+        kw = plays[0].args["kwargs"]
+        cb = kw.get("start_callback", NONE)
+        cbf = I.force(cb)
+        old = I.force(old_instance).ref
+        sync = I.force(I.read_field(I.force(config).ref, "sync_ms")).t
+        by_callback = cbf.tag == "fn" and cbf.kind == "bound" and cbf.name == "stop" and cbf.obj is old
+        names = [e.name for e in I.cur_trace() if e.name in ("old.stop", "play")]
+        return VBool(z3.If(sync != 0, z3.BoolVal(by_callback and len(stops) == 0),
+                           z3.BoolVal(cbf.tag == "none" and names == ["old.stop", "play"])))
+    C.helpers["takeover_ok"] = takeover_ok
+    C.helpers["n_plays"] = lambda I: VInt(len(events_named(I, "play")))
+    C.trace_helpers = {"takeover_ok", "n_plays"}
+    C.fn("ShowController.replace_or_advance_show",
+         params=dict(old_instance=ObjS("RunningShowI"), config=CFG, start_step=Opt(Int), start_time=Opt(Real),
+                     start_running=Bool, stop_callback=Opt(Fn)),
+         requires=[("the old show is running", "not old_instance.stopped")],
+         ensures=[("RS1: whenever a new show is started in place of a running one, a synchronised replacement (sync_ms) "
+                   "hands the old show's stop to the new show as its start callback - the old show keeps playing until the "
+                   "sync point, also when it has not played a step yet - and an unsynchronised one stops it first",
+                   "implies(n_plays() == 1, takeover_ok(old_instance, config))")],
+         modifies=[], raises={})
+    return C
 
 
 SP = "mpf/config_players/show_player.py"
